@@ -329,6 +329,9 @@ func NewMux(opts ...MuxOption) (*Mux, error) {
 		muxOpts.codecsByName[v.Name()] = v
 	}
 	for k := range muxOpts.codecs {
+		if !strings.Contains(k, "/") {
+			continue // codec for a message type, not a content type
+		}
 		muxOpts.contentTypeOffers = append(muxOpts.contentTypeOffers, k)
 	}
 	sort.Strings(muxOpts.contentTypeOffers)
